@@ -326,3 +326,36 @@ macro_rules! into_geom {
     ($($v:ident),*) => { $( impl<T: geo::CoordNum> IntoGeom<T> for geo::$v<T> { fn into_geom(self) -> geo::Geometry<T> { geo::Geometry::$v(self) } } )* };
 }
 into_geom!(Point, Line, LineString, Polygon, MultiPoint, MultiLineString, MultiPolygon, Rect, Triangle, GeometryCollection);
+
+impl Xf {
+    /// inverse map on f64 points (exact up to one rounding of the translation step)
+    pub fn invert_f(&self, p: Coord<f64>) -> (f64, f64) {
+        let s = self.scale();
+        let (x, y) = (p.x / s - self.tx as f64, p.y / s - self.ty as f64);
+        match self.d4 % 8 {
+            0 => (x, y),
+            1 => (y, -x),
+            2 => (-x, -y),
+            3 => (-y, x),
+            4 => (-x, y),
+            5 => (x, -y),
+            6 => (y, x),
+            _ => (-y, -x),
+        }
+    }
+    /// largest absolute coordinate value the transformed image of `g` can have
+    pub fn max_abs(&self, g: &G) -> f64 {
+        let mut m = 0f64;
+        for c in g.coords() {
+            let p = self.apply(c);
+            m = m.max(p.x.abs()).max(p.y.abs());
+        }
+        m
+    }
+}
+
+/// unit in the last place of |v| (v finite)
+pub fn ulp(v: f64) -> f64 {
+    let a = v.abs().max(f64::MIN_POSITIVE);
+    f64::from_bits(a.to_bits() + 1) - a
+}
